@@ -1,7 +1,7 @@
 /-
   Whole histories: the invariants of ILV.Lemmas.StoreInv / StoreWrites along `Store.run`.
 -/
-import ILV.Lemmas.StoreWrites
+import ILV.Lemmas.ArityOk
 namespace ILV.Store
 open ILV ILV.Batch ILV.Props.C31
 
@@ -31,9 +31,49 @@ instance decEffective (c : Codec) (G : String → Tuple → Prop) [∀ r t, Deci
 structure Inv (G : String → Tuple → Prop) (e : Engine) : Prop where
   p : PInv G e
   l : LInv G e
+  a : ArityOk e
+
+/-- an effective delete keeps the invariants: the arity filter passes every named tuple (they are stored). -/
+theorem delete_spec {c : Codec} {G} (hc : CodecOk c G) (e : Engine) (rel : String) (ts : List Tuple)
+    (hP : PInv G e) (hL : LInv G e) (hA : ArityOk e) (hn : ts.Nodup) (hpr : ∀ t ∈ ts, t ∈ liveOf e rel) :
+    PInv G (delete c e rel ts).1 ∧ LInv G (delete c e rel ts).1 ∧ (delete c e rel ts).1.cfg = e.cfg := by
+  have hd : deletable e.arity rel ts = ts := by
+    cases ts with
+    | nil => simp [deletable]; cases aget e.arity rel <;> rfl
+    | cons first rest =>
+      have ha := hA rel first (hpr first (by simp))
+      simp only [deletable, ha]
+      apply List.filter_eq_self.2
+      intro t ht
+      have := hA rel t (hpr t ht)
+      rw [ha] at this
+      simp only [Option.some.injEq] at this
+      simp [this]
+  show PInv G (deleteCoreRaw c e rel (deletable e.arity rel ts)).1 ∧ LInv G (deleteCoreRaw c e rel (deletable e.arity rel ts)).1 ∧
+    (deleteCoreRaw c e rel (deletable e.arity rel ts)).1.cfg = e.cfg
+  rw [hd]
+  exact deleteRaw_spec hc e rel ts hP hL hn hpr
+
+theorem aget_filterMap {β γ} (m : List (String × β)) (f : β → Option γ) (k : String) (h : (keys m).Nodup) :
+    aget (m.filterMap (fun p => (f p.2).map (fun a => (p.1, a)))) k = (aget m k).bind f := by
+  induction m with
+  | nil => rfl
+  | cons p m ih =>
+    obtain ⟨a, b⟩ := p
+    simp only [keys, List.map_cons, List.nodup_cons] at h
+    by_cases hak : a = k
+    · subst hak
+      have hn : aget m a = none := aget_none_of_not_mem m a h.1
+      cases hf : f b with
+      | none => simp [List.filterMap_cons, hf, aget, ih h.2, hn]
+      | some x => simp [List.filterMap_cons, hf, aget]
+    · cases hf : f b with
+      | none => simp [List.filterMap_cons, hf, aget, hak, ih h.2]
+      | some x => simp [List.filterMap_cons, hf, aget, hak, ih h.2]
 
 theorem Inv_init (G : String → Tuple → Prop) (cfg : Cfg) : Inv G { cfg := cfg } := by
-  refine ⟨⟨rfl, by simp [keys], fun _ => rfl, ?_, ?_, fun _ _ => rfl, fun _ => ⟨rfl, fun _ => rfl⟩⟩, ⟨?_, ?_, ?_⟩⟩
+  refine ⟨⟨rfl, by simp [keys], fun _ => rfl, ?_, ?_, fun _ _ => rfl, fun _ => ⟨rfl, fun _ => rfl⟩⟩, ⟨?_, ?_, ?_⟩,
+    fun r t ht => by simp [liveOf, aget] at ht⟩
   · intro r u hu; simp [logOf, shardOf, aget, readShard] at hu
   · intro p hp; simp at hp
   · intro r t; simp [logOf, shardOf, aget, readShard, liveOf]
@@ -56,7 +96,41 @@ theorem restart_inv {c : Codec} {G} (hc : CodecOk c G) (hwf : ∀ r t, G r t →
     intro r t
     rw [r5, mem_recover_iff _ (fun u hu => hwf r _ (h.p.good r u hu)), h.l.sums r t]
     by_cases ht : t ∈ liveOf e r <;> simp [ht]
-  refine ⟨r1, ⟨r2, ⟨?_, ?_, ?_⟩⟩, r3, hmem⟩
+  refine ⟨r1, ⟨r2, ⟨?_, ?_, ?_⟩, ?_⟩, r3, hmem⟩
+  rotate_left 3
+  · -- arities: the first recovered tuple has the arity of the old relation
+    intro r t ht
+    have hold : ∀ x ∈ liveOf (restart c e).1 r, aget e.arity r = some x.length :=
+      fun x hx => h.a r x ((hmem r x).1 hx)
+    obtain ⟨f1, f2, _, f4⟩ := reopenPersist_spec hc e h.p hB
+    have hfl : reopenPersist c e = ((reopenPersist c e).1, none) := by rw [← f1]
+    have hres : (restart c e).1 = loadKgs (reopenPersist c e).1 := by
+      unfold restart; rw [hfl]
+    have hlive : ∀ r', liveOf (restart c e).1 r' = recoverRel (shardOf (reopenPersist c e).1 r') := by
+      intro r'
+      rw [hres, liveOf_loadKgs _ f2.keysNodup]; rfl
+    have harity : aget (restart c e).1.arity r = (aget (reopenPersist c e).1.shards r).bind shardArity := by
+      rw [hres]; exact aget_filterMap _ shardArity r f2.keysNodup
+    rw [harity]
+    rw [hlive r] at ht
+    cases hg : aget (reopenPersist c e).1.shards r with
+    | none =>
+      simp only [shardOf, hg, Option.getD_none, recoverRel_default] at ht
+      simp at ht
+    | some sh =>
+      have hsh : shardOf (reopenPersist c e).1 r = sh := by simp [shardOf, hg]
+      rw [hsh] at ht
+      simp only [Option.bind_some, shardArity]
+      cases hrec : recoverRel sh with
+      | nil => rw [hrec] at ht; simp at ht
+      | cons x xs =>
+        have hx : x ∈ liveOf (restart c e).1 r := by rw [hlive r, hsh, hrec]; simp
+        have ht' : t ∈ liveOf (restart c e).1 r := by rw [hlive r, hsh]; exact ht
+        have e1 := hold x hx
+        have e2 := hold t ht'
+        rw [e1] at e2
+        simp only [Option.some.injEq] at e2
+        simp [e2]
   · intro r t
     rw [r4, h.l.sums r t]
     by_cases ht : t ∈ liveOf e r
@@ -90,28 +164,28 @@ theorem step_inv {c : Codec} {G} (hc : CodecOk c G) (hwf : ∀ r t, G r t → Tu
   cases o with
   | ins r ts =>
     obtain ⟨a, b, d⟩ := insert_spec hc e r ts h.p h.l he.1 he.2.1 he.2.2
-    exact ⟨⟨a, b⟩, d⟩
+    exact ⟨⟨a, b, insertCore_arityOk c e r ts h.a⟩, d⟩
   | del r ts =>
-    obtain ⟨a, b, d⟩ := delete_spec hc e r ts h.p h.l he.1 he.2
-    exact ⟨⟨a, b⟩, d⟩
+    obtain ⟨a, b, d⟩ := delete_spec hc e r ts h.p h.l h.a he.1 he.2
+    exact ⟨⟨a, b, deleteCore_arityOk c e r ts h.a⟩, d⟩
   | save =>
     obtain ⟨_, a, m, _⟩ := saveAll_spec hc e h.p
-    exact ⟨⟨a, LInv_of_maint h.l m⟩, m.cfg⟩
+    exact ⟨⟨a, LInv_of_maint h.l m, ArityOk_of_eq h.a m.live m.arity⟩, m.cfg⟩
   | savekg =>
     obtain ⟨_, a, m, _⟩ := saveAll_spec hc e h.p
-    exact ⟨⟨a, LInv_of_maint h.l m⟩, m.cfg⟩
+    exact ⟨⟨a, LInv_of_maint h.l m, ArityOk_of_eq h.a m.live m.arity⟩, m.cfg⟩
   | compact =>
     obtain ⟨_, a, m⟩ := compactAll_spec hc e h.p
-    exact ⟨⟨a, LInv_of_maint h.l m⟩, m.cfg⟩
+    exact ⟨⟨a, LInv_of_maint h.l m, ArityOk_of_eq h.a m.live m.arity⟩, m.cfg⟩
   | compactIf n =>
     obtain ⟨_, a, m⟩ := compactIf_spec hc e n h.p
-    exact ⟨⟨a, LInv_of_maint h.l m⟩, m.cfg⟩
+    exact ⟨⟨a, LInv_of_maint h.l m, ArityOk_of_eq h.a m.live m.arity⟩, m.cfg⟩
   | restart =>
     obtain ⟨_, a, b, _⟩ := restart_inv hc hwf e h (hB_of_immediate h.p hm)
     exact ⟨a, b⟩
   | shutdown =>
     obtain ⟨_, a, m, hb⟩ := saveAll_spec hc e h.p
-    obtain ⟨_, a', b', _⟩ := restart_inv hc hwf (saveAll c e).1 ⟨a, LInv_of_maint h.l m⟩ (hB_of_empty a hb)
+    obtain ⟨_, a', b', _⟩ := restart_inv hc hwf (saveAll c e).1 ⟨a, LInv_of_maint h.l m, ArityOk_of_eq h.a m.live m.arity⟩ (hB_of_empty a hb)
     exact ⟨a', b'.trans m.cfg⟩
   | obs => exact ⟨h, rfl⟩
   | files => exact ⟨h, rfl⟩
